@@ -150,6 +150,52 @@ theorem C14_race (cutoff now : Int) : ∀ (svrs : List Server) (s : AbsState) (r
     · exact ih _ removed (errors + 1) k row t hkeyed' hstep hr ht hrest
     · exact ih _ (removed + 1) errors k row t hkeyed' hstep hr ht hrest
 
+/-- the repaired guard of the pass: among the fetched records, those refreshed after the cutoff are not handed to the
+deletions at all -/
+def guarded (cutoff : Int) (svrs : List Server) : List Server :=
+  svrs.filter fun s => match s.refreshedAt with | some t => !decide (t > cutoff) | none => true
+
+theorem guard_drops_refreshed (cutoff : Int) (svrs : List Server) (sv : Server) (t : Int)
+    (h : sv ∈ guarded cutoff svrs) (hr : sv.refreshedAt = some t) : t ≤ cutoff := by
+  unfold guarded at h
+  simp only [List.mem_filter, hr] at h
+  have := h.2
+  simp only [Bool.not_eq_true', decide_eq_false_iff_not] at this
+  omega
+
+/-- **C14 (refresh between the scan and the fetch).**  The pass scans the stale keys, then fetches the records.
+If a heartbeat or keepalive committed in between, the fetched copy of that server *is* the refreshed record; the
+guard drops it, so — whatever else is in the fetched list, as long as every other fetched copy of that key is
+older than the stored record — the server is still stored, unchanged, after all deletions. -/
+theorem C14_window (cutoff now : Int) (fetched : List Server) (s : AbsState) (k : Nat) (row : SRow) (t : Int)
+    (hkeyed : Keyed s) (hrow : s.servers[k]? = some row) (hr : row.svr.refreshedAt = some t) (ht : t > cutoff)
+    (hfetched : ∀ sv ∈ fetched, sv.addr.key = k → sv = row.svr ∨ sv.version < row.svr.version) :
+    ((removeAll cutoff (guarded cutoff fetched) 0 0).run s now).1.servers[k]? = some row := by
+  apply C14_race cutoff now (guarded cutoff fetched) s 0 0 k row t hkeyed hrow hr ht
+  intro sv hsv hk
+  have hmem : sv ∈ fetched := by
+    unfold guarded at hsv
+    exact (List.mem_filter.mp hsv).1
+  rcases hfetched sv hmem hk with h | h
+  · -- the fetched copy is the refreshed record itself: the guard has dropped it
+    exfalso
+    have := guard_drops_refreshed cutoff fetched sv t hsv (by rw [h]; exact hr)
+    omega
+  · exact h
+
+/-- the pass, at storage-command granularity, hands exactly the guarded fetched records to the deletions -/
+theorem cleanServers2_shape (retention : Int) :
+    cleanServers2 retention = .call .now fun now =>
+      .call (.scanServers { updatedBefore := some (now - retention) }) fun r =>
+      match r with
+      | .error _ => pure (0, 0)
+      | .ok scanned =>
+        if scanned.isEmpty then pure (0, 0)
+        else .call (.fetchServers (scanned.map (·.addr))) fun r =>
+          match r with
+          | .error _ => pure (0, 0)
+          | .ok svrs => removeAll (now - retention) (guarded (now - retention) svrs) 0 0 := rfl
+
 /-- a refresh that committed *before* the scan keeps the server out of the scan altogether, provided the
 record's update time is not older than its refresh time (`refreshedAt ≤ updatedAt`: every refresh is a write) -/
 theorem refreshed_not_scanned (s : AbsState) (cutoff : Int) (kv : Nat × SRow) (t : Int)
